@@ -714,6 +714,8 @@ class Env:
                     self.add(p1 == p2)
                 if n1 == n2 == "erf" and self.identical(S(a1), S(-a2)):
                     self.add(p1 == -p2)
+                if n1 == n2 == "log" and self.identical(S(a1 * a2), 1):
+                    self.add(p1 == -p2)
 
     def identical(self, a, b):
         """a == b as rational functions of the inputs (abstract quotients expanded); decided by the normal form alone"""
@@ -916,6 +918,8 @@ class Env:
                 r, _, _ = self._check(x.e != h * h)
                 if r == "unsat":
                     return abs(SymReal(h))
+        if self.use_ratfun and self.identical(x, 0):
+            return SymReal(z3.RealVal(0))
         for (xe, yv) in self.sqrt_memo:
             if xe.get_id() == x.e.get_id() or (self.use_ratfun and self.identical(SymReal(xe), x)):
                 return SymReal(yv)
